@@ -95,3 +95,17 @@ def guarded_names(facts, pred: str) -> Set[str]:
 
 def same_defs(cfg: CFG, a: int, b: int, name: str) -> bool:
     return [d.node for d in cfg.reaching(a, name)] == [d.node for d in cfg.reaching(b, name)]
+
+
+def flag_values(facts) -> dict:
+    """{name: bool} for facts about plain flag variables, in any of the spellings x / not x / x is True|False / x == True|False."""
+    out = {}
+    for e, pol in facts:
+        if isinstance(e, ast.Name):
+            out[e.id] = pol
+        elif isinstance(e, ast.Compare) and len(e.ops) == 1 and isinstance(e.left, ast.Name) and isinstance(e.comparators[0], ast.Constant) \
+                and isinstance(e.comparators[0].value, bool) and isinstance(e.ops[0], (ast.Is, ast.Eq, ast.IsNot, ast.NotEq)):
+            same = isinstance(e.ops[0], (ast.Is, ast.Eq))
+            val = e.comparators[0].value if same else (not e.comparators[0].value)
+            out[e.left.id] = val if pol else (not val)
+    return out
